@@ -37,8 +37,10 @@ def check(ctx):
     ps = persist.Persist(ctx, [ctx.fn(f'{GP}.get_graph')], fns)
     ps.check_writes()
     # fast encoder: the neighbourhood search reaches every option value
-    from .c14 import neighbourhood
+    from .c14 import neighbourhood, candidate_errors
     neighbourhood(ctx)
+    # ... and an infeasible candidate is rejected by its loop, never an error of the decode (F24)
+    candidate_errors(ctx)
     edges.check_walks(ctx, categories={'derivation', 'incompat-scan', 'default'})
     edges.check_exhaustive_scans(ctx)
     # the connection part of the instance: source/target sides of the connection-matrix code mirror each other
